@@ -439,6 +439,7 @@ int main(int argc, char** argv)
     int* cur = (int*) mmap(nullptr, sizeof(int), PROT_READ | PROT_WRITE, MAP_SHARED | MAP_ANONYMOUS, -1, 0);
     *cur = 0;
     size_t next = 0;
+    int deaths = 0;
     while (next < jobs.size())
     {
         std::fflush(stdout);
@@ -450,7 +451,7 @@ int main(int argc, char** argv)
             for (size_t i = next; i < jobs.size(); ++i)
             {
                 *cur = (int) i;
-                alarm(20);
+                alarm(8);
                 if (jobs[i].typed)
                 {
                     g_led.reset();
@@ -479,6 +480,15 @@ int main(int argc, char** argv)
             jobs[i].id.c_str());
         std::fflush(stdout);
         next = i + 1;
+        // the failing-input search has succeeded many times over: do not spend minutes on more
+        // immediate aborts of sync_wait / start_detached cases are cheap (and include the known F18): only
+        // hangs and deaths of plain pipelines count against the budget
+        if ((std::string(what) == "hang" || jobs[i].mode == "run") && ++deaths >= 12)
+        {
+            std::printf("SKIPPED PIPE %zu cases after %d abnormal terminations\n", jobs.size() - next, deaths);
+            std::fflush(stdout);
+            break;
+        }
     }
     return 0;
 }
